@@ -6,11 +6,13 @@
 package auditlog
 
 import (
+	"fmt"
 	"io"
 	"io/fs"
 	"log"
 	"os"
 	"path"
+	"strings"
 	"sync"
 	"time"
 
@@ -83,18 +85,22 @@ func (cl concurrentWriter) Write(al plugintypes.AuditLog) error {
 	cl.mux.Lock()
 	defer cl.mux.Unlock()
 
-	cl.log.Printf("%s %s - - [%s]", al.Transaction().ClientIP(), al.Transaction().HostIP(), al.Transaction().Timestamp())
+	// the index entry of a record is one line: log.Printf ends every call with a newline, so the line is
+	// assembled first and written with a single call
+	var entry strings.Builder
+	fmt.Fprintf(&entry, "%s %s - - [%s]", al.Transaction().ClientIP(), al.Transaction().HostIP(), al.Transaction().Timestamp())
 	if al.Transaction().HasRequest() {
-		cl.log.Printf(
+		fmt.Fprintf(&entry,
 			` "%s %s %s"`,
 			al.Transaction().Request().Method(),
 			al.Transaction().Request().URI(),
 			al.Transaction().Request().HTTPVersion())
 	}
 	if al.Transaction().HasResponse() {
-		cl.log.Printf(` %d`, al.Transaction().Response().Status())
+		fmt.Fprintf(&entry, ` %d`, al.Transaction().Response().Status())
 	}
-	cl.log.Printf("%s - %s\n", al.Transaction().ID(), filepath)
+	fmt.Fprintf(&entry, " %s - %s", al.Transaction().ID(), filepath)
+	cl.log.Print(entry.String())
 
 	return nil
 }
